@@ -227,6 +227,68 @@ impl Ctx {
         }
     }
 
+    /// Thorough tier: absorb the libFuzzer campaign the `check` script ran before this binary
+    /// (stats from its log) and judge every crash artifact by decoding and re-running it.
+    pub fn fuzz_phase<C>(
+        &mut self,
+        engine: &str,
+        decode: &(dyn Fn(&[u8]) -> C),
+        run: &(dyn Fn(&C) -> Result<CaseReport, Stop> + Sync),
+        shrink: &(dyn Fn(&C) -> C),
+    )
+    where
+        C: Serialize + Debug + Clone + Send + 'static,
+    {
+        let Ok(log) = std::env::var("VERIF_FUZZ_LOG") else { return };
+        let t0 = Instant::now();
+        let text = std::fs::read_to_string(&log).unwrap_or_default();
+        let stat = |k: &str| text.lines().rev().find_map(|l| l.strip_prefix(k).map(|v| v.trim().to_string()));
+        let execs: u64 = stat("stat::number_of_executed_units:").and_then(|v| v.parse().ok()).unwrap_or(0);
+        let cov = text.lines().rev().find_map(|l| l.split_whitespace().collect::<Vec<_>>().windows(2).find(|w| w[0] == "cov:").map(|w| w[1].to_string()));
+        let corp = text.lines().rev().find_map(|l| l.split_whitespace().collect::<Vec<_>>().windows(2).find(|w| w[0] == "corp:").map(|w| w[1].to_string()));
+        let mut acc = Acc::default();
+        let mut crashes = 0;
+        if let Ok(dir) = std::env::var("VERIF_FUZZ_ARTIFACTS") {
+            let mut files: Vec<PathBuf> = std::fs::read_dir(&dir).map(|rd| rd.filter_map(|e| e.ok().map(|e| e.path())).collect()).unwrap_or_default();
+            files.sort();
+            for f in files {
+                let name = f.file_name().and_then(|n| n.to_str()).unwrap_or("").to_string();
+                if !(name.starts_with("crash-") || name.starts_with("oom-") || name.starts_with("timeout-")) {
+                    continue;
+                }
+                crashes += 1;
+                let Ok(bytes) = std::fs::read(&f) else { continue };
+                let case = decode(&bytes);
+                let r = guarded(&case, run);
+                acc.record(&case, &r);
+                match r {
+                    Err(Stop::Violation(m)) => {
+                        let small = shrink(&case);
+                        let m = match guarded(&small, run) {
+                            Err(Stop::Violation(m2)) => m2,
+                            _ => m,
+                        };
+                        let p = self.write_replay(engine, &small, &m, &format!("libFuzzer artifact {name}, decoded and shrunk by greedy deletion"));
+                        self.violations.push((m, p));
+                    }
+                    Err(Stop::Internal(m)) => self.inconclusive.push(format!("fuzz artifact {name}: {m}")),
+                    _ => {
+                        if name.starts_with("crash-") {
+                            self.inconclusive.push(format!("fuzz artifact {name} crashed the target but passes when replayed through the engine (sanitizer finding? see {log})"));
+                        }
+                    }
+                }
+            }
+        }
+        acc.evaluations += execs;
+        self.absorb(
+            "libfuzzer-campaign",
+            acc,
+            json!({"kind": "coverage-guided fuzzing (libFuzzer + ASan)", "executions": execs, "final_coverage_edges": cov, "corpus_units": corp, "artifacts": crashes, "log": log}),
+            t0,
+        );
+    }
+
     /// Write the evidence file and print the verdict lines. Returns the process exit code.
     pub fn finish(self) -> i32 {
         let tier = match self.tier {
